@@ -172,6 +172,11 @@ pub struct Walker {
     /// statically composed type, exactly as client code would write it (at most five layers).
     #[serde(default)]
     pub erased: bool,
+    /// How the behaviour is handed to the walk (0: a `WalkBehavior` value; other forms — no
+    /// argument at all, `()`, a bare `LinkBehavior`, `DepthBehavior`, `DepthMax`, ... — are used
+    /// when they can express the same behaviour, see `exec::BehArg`).
+    #[serde(default)]
+    pub form: u8,
 }
 
 #[derive(Serialize, Deserialize, Clone, Debug, PartialEq, Eq)]
